@@ -358,6 +358,15 @@ class Index:
                 for c in cs:
                     if c.qual not in seen:
                         work.append(c)
+            # methods taken as VALUES (`self.m` stored in a dispatch table, handed to map / a callback slot): they may be called
+            # through the value later, so they count as reachable
+            if fi.cls:
+                call_funcs = {id(n.func) for n in ast.walk(fi.node) if isinstance(n, ast.Call)}
+                for n in ast.walk(fi.node):
+                    if isinstance(n, ast.Attribute) and isinstance(n.ctx, ast.Load) and id(n) not in call_funcs and isinstance(n.value, ast.Name) and n.value.id == "self":
+                        m = self.resolve_method(fi.cls, n.attr)
+                        if m is not None and m.qual not in seen:
+                            work.append(m)
         return seen
 
     # ------------------------------------------------------------------ effects
